@@ -161,16 +161,32 @@ func (ev *Evaluator) Call(fn *ssa.Function, args []Val, free []Val, st *State) V
 				// objects created inside a loop survive its exit: carry them
 				// from the back-edge states of a header we are leaving
 				for _, p := range inPreds {
+					var bqs []State
+					var bcs []*Term
 					for _, q := range p.Preds {
 						if !isBackEdge(q, p) {
 							continue
 						}
 						if qs, done := outSt[q]; done {
-							for o, v := range qs.mem {
-								if _, have := cur.mem[o]; !have {
-									cur.mem[o] = v
-								}
+							c, ok := econd[edge{q, p}]
+							if !ok {
+								c = K(1)
 							}
+							bqs = append(bqs, qs)
+							bcs = append(bcs, c)
+						}
+					}
+					if len(bqs) == 0 {
+						continue
+					}
+					rel := stripCommon(bcs)
+					merged := bqs[0]
+					for i := 1; i < len(bqs); i++ {
+						merged = iteState(rel[i], bqs[i], merged)
+					}
+					for o, v := range merged.mem {
+						if _, have := cur.mem[o]; !have {
+							cur.mem[o] = v
 						}
 					}
 				}
